@@ -75,7 +75,7 @@ def _kw(ch: core.Chooser) -> dict:
 
 OPS = ["add", "sub", "mul", "pow", "derivative", "gradient", "hessian", "call_full", "call_partial", "call_poly", "getitem", "align", "clean", "pickle",
        "lt", "eq_cmp", "lead_exponent", "lead_coefficient", "argmax", "maximum", "str", "repr", "neg", "sum", "reshape", "concat", "where", "polynomial",
-       "isfinite", "dict_ctor", "noname_ctor", "const_tonumpy", "pow_by_poly"]
+       "isfinite", "dict_ctor", "noname_ctor", "const_tonumpy", "pow_by_poly", "call_cancelled", "symbols_one"]
 
 
 def _gen_op(ch: core.Chooser, nslots: int, names: List[str]) -> dict:
@@ -94,6 +94,12 @@ def _gen_op(ch: core.Chooser, nslots: int, names: List[str]) -> dict:
         node["var"] = ch.choice(names)
     if fn == "getitem":
         node["idx"] = ch.below(2)
+    if fn == "call_cancelled":
+        node["vals"] = [ch.choice([0, 1, 2, 3]) for _ in names]
+        node["var"] = ch.choice(names)
+        node["array_arg"] = ch.chance(0.7)
+    if fn == "symbols_one":
+        node["spec"] = ch.choice(["q", "q0", "q1 q2", "q:2", "q", "q3"])
     if fn == "noname_ctor":
         node["rows"] = ch.choice([[[0, 2], [0, 0]], [[0, 1]], [[0, 0, 3], [0, 1, 0]], [[1, 0], [0, 2]], [[0, 0, 1]]])
         node["names"] = ch.sub("names").choice([None, None, "q", "x", "q"])  # one string stands for name0, name1, ...
@@ -358,6 +364,16 @@ class Exec:
             if a.size > 2:
                 raise core.Undecided("hessian too large")
             return n.hessian(a)
+        if fn == "symbols_one":
+            return n.symbols(node["spec"])
+        if fn == "call_cancelled":
+            # a polynomial that became constant because its other terms cancelled, evaluated with a number or an array
+            const = (a - a) + 3
+            var = node["var"]
+            if var not in const.names:
+                raise core.Undecided("name pruned from the operand (retain_names) or never present")
+            v = node["vals"][self.plan["names"].index(var)]
+            return const(**{var: numpy.array([v, v + 1, v + 3]) if node.get("array_arg") else v})
         if fn in ("call_full", "call_partial", "call_poly"):
             vals = dict(zip(self.plan["names"], node["vals"]))
             if fn == "call_full":
